@@ -666,6 +666,74 @@ pub fn check_limit(lc: &LimitCase, c20: bool, st: &mut Stats) -> CheckResult {
     Ok(())
 }
 
+/// The size limit seen through the real executable over TCP (its main() wraps more middleware
+/// around the service and owns the HTTP server settings).
+pub fn check_limit_binary(lc: &LimitCase, st: &mut Stats) -> CheckResult {
+    use crate::sock::{exchange, Encoding, SockError};
+    let Some(bin) = crate::props::binary::server_bin() else { return Err(Fail::Inconclusive("the server executable has not been built".into())) };
+    let dir = TempDir::new("c15b");
+    let mut proc = None;
+    for _ in 0..4 {
+        let l = std::net::TcpListener::bind("127.0.0.1:0").map_err(|e| Fail::Inconclusive(format!("no loopback port: {e}")))?;
+        let port = l.local_addr().unwrap().port();
+        drop(l);
+        let launch = crate::props::binary::Launch { args: vec!["--data-dir".into(), dir.path().to_string_lossy().into_owned(), "--listen".into(), format!("127.0.0.1:{port}")], env: vec![], connect: vec![format!("127.0.0.1:{port}").parse().unwrap()] };
+        if let Ok(p) = crate::props::binary::spawn(&bin, &launch) {
+            proc = Some(p);
+            break;
+        }
+    }
+    let Some(proc) = proc else { return Err(Fail::Inconclusive("cannot start the server executable".into())) };
+    let addr = proc.addrs[0];
+    let to = std::time::Duration::from_secs(60);
+    let c = case::client_uuid(15, 1);
+    let first = match exchange(addr, &crate::driver::req_add_version(c, Uuid::nil(), vec![Bytes::from_static(b"x")]), Encoding::ContentLength, &[], to) {
+        Ok(r) => match crate::driver::decode(crate::driver::Endpoint::AddVersion, &r) {
+            Outcome::Accepted { id, .. } => id,
+            o => return v(format!("set-up through the real executable: {}", o.short())),
+        },
+        Err(e) => return Err(Fail::Inconclusive(format!("socket: {e:?}"))),
+    };
+    let len = (LIMIT as i64 + lc.delta as i64) as usize;
+    let body = Bytes::from(BytesSpec { len: len as u32, class: lc.class, seed: 9 }.expand());
+    let req = if lc.snapshot { crate::driver::req_add_snapshot(c, first, vec![body.clone()]) } else { crate::driver::req_add_version(c, first, vec![body.clone()]) };
+    let what = format!("{} with a body of limit{:+} bytes over TCP to the real executable", if lc.snapshot { "AddSnapshot" } else { "AddVersion" }, lc.delta);
+    st.check();
+    let enc = if lc.sizes.is_empty() { Encoding::ContentLength } else { Encoding::Chunked };
+    let resp = match exchange(addr, &req, enc, &[1 << 20], to) {
+        Ok(r) => r,
+        Err(SockError::NoResponse(m)) | Err(SockError::Io(m)) => {
+            // an early refusal can reset the connection while the body is still being written
+            if lc.delta > 0 {
+                st.label("c15:binary-limit:connection-ended-before-a-status-line");
+                return Ok(());
+            }
+            return Err(Fail::Inconclusive(format!("{what}: no response: {m}")));
+        }
+    };
+    if resp.status >= 500 {
+        return v(format!("{what}: answered {}", resp.status));
+    }
+    if lc.delta > 0 {
+        if !(400..500).contains(&resp.status) {
+            return v(format!("{what}: must be refused with a 4xx, got {}", resp.status));
+        }
+    } else {
+        if resp.status != 200 {
+            return v(format!("{what}: bodies up to and including the limit must be accepted, got {}", resp.status));
+        }
+        let back = if lc.snapshot { crate::driver::req_get_snapshot(c) } else { crate::driver::req_get_child(c, first) };
+        match exchange(addr, &back, Encoding::ContentLength, &[], to) {
+            Ok(r) if r.status == 200 && r.body.len() == body.len() && r.body[..] == body[..] => {}
+            Ok(r) => return v(format!("{what}: accepted, but reading it back gives status {} and {} bytes", r.status, r.body.len())),
+            Err(e) => return Err(Fail::Inconclusive(format!("{what}: reading back: {e:?}"))),
+        }
+    }
+    st.label(&format!("binary-limit{:+}:{}", lc.delta, resp.status));
+    st.nontrivial(&("binary-limit", lc.snapshot, lc.delta, lc.sizes.is_empty()));
+    Ok(())
+}
+
 pub fn limit_cases(tier: Tier) -> Vec<LimitCase> {
     let mut out = vec![];
     let l = LIMIT as u32;
@@ -1109,7 +1177,7 @@ pub fn run(id: &str, tier: Tier, seed: u64) -> Report {
             p.max_ops = tier.pick(40, 120);
             p.w = [40, 22, 18, 12, 3, 5];
             p.av_latest_pct = 65;
-            let r = engine::explore("C14", "twin", seed, tier.pick(4000, 100_000), || tcase(&p), check_twin);
+            let r = engine::explore("C14", "twin", seed, tier.pick(10_000, 100_000), || tcase(&p), check_twin);
             rep.absorb("twin-histories", r);
             rep
         }
@@ -1129,7 +1197,7 @@ pub fn run(id: &str, tier: Tier, seed: u64) -> Report {
                 return rep;
             }
             let (mp, mr) = (tier.pick(14, 30), tier.pick(14, 40));
-            let r = engine::explore(idn, "raw", seed, tier.pick(4000, 100_000), || rcase(mp, mr), |c, st| check_raw(c, mode, st));
+            let r = engine::explore(idn, "raw", seed, tier.pick(12_000, 100_000), || rcase(mp, mr), |c, st| check_raw(c, mode, st));
             rep.absorb("request-grammar", r);
             if rep.failed() {
                 return rep;
@@ -1138,6 +1206,21 @@ pub fn run(id: &str, tier: Tier, seed: u64) -> Report {
                 // allow-list refusals too
                 let r = engine::explore("C20", "allow", seed, tier.pick(600, 10_000), || acase(10, 10), check_allow_c20);
                 rep.absorb("allow-list-responses", r);
+                if rep.failed() {
+                    return rep;
+                }
+            }
+            if mode == Mode::C20 {
+                let mut r = engine::enumerate("C20", "fault", fault_cases20(), check_fault_c20);
+                r.exhaustive = false;
+                rep.absorb("responses-to-failing-storage", r);
+                if rep.failed() {
+                    return rep;
+                }
+                // the same grammar over real sockets: an actix HttpServer and the real executable
+                // (whose main() puts an error-handler and a logger middleware in front)
+                let r = engine::explore("C20", "socket", seed, tier.pick(160, 6000), || scase20(12), check_sock_c20);
+                rep.absorb("over-tcp-httpserver-and-executable", r);
                 if rep.failed() {
                     return rep;
                 }
@@ -1151,6 +1234,20 @@ pub fn run(id: &str, tier: Tier, seed: u64) -> Report {
             let mut r = engine::enumerate_n(idn, "limit", 6, cases, |c, st| check_limit(c, mode == Mode::C20, st));
             r.exhaustive = false;
             rep.absorb("size-limit", r);
+            if mode == Mode::C15 && !rep.failed() && crate::props::binary::server_bin().is_some() {
+                let mut cases = vec![];
+                for snapshot in [false, true] {
+                    for (delta, sizes) in [(0i32, vec![]), (1, vec![]), (0, vec![1u32 << 20]), (-1, vec![])] {
+                        if tier == Tier::Quick && delta == -1 {
+                            continue;
+                        }
+                        cases.push(LimitCase { backend: Backend::Sqlite, snapshot, delta, sizes, class: 2 });
+                    }
+                }
+                let mut r = engine::enumerate_n("C15", "limit-binary", 6, cases, check_limit_binary);
+                r.exhaustive = false;
+                rep.absorb("size-limit-over-tcp-real-executable", r);
+            }
             rep
         }
         _ => {
@@ -1168,11 +1265,197 @@ pub fn run(id: &str, tier: Tier, seed: u64) -> Report {
                 return rep;
             }
             let (a, b) = (tier.pick(14, 30), tier.pick(20, 50));
-            let r = engine::explore("C16", "allow", seed, tier.pick(3000, 80_000), || acase(a, b), check_allow);
+            let r = engine::explore("C16", "allow", seed, tier.pick(9000, 80_000), || acase(a, b), check_allow);
             rep.absorb("allow-list", r);
             rep
         }
     }
+}
+
+/// C20 over real sockets: the same request grammar, delivered over TCP to (a) an actix HttpServer
+/// around the same WebServer and (b) the real executable, with and without an allow-list.
+#[derive(Clone, Debug, Serialize, Deserialize, PartialEq, Eq, Hash)]
+pub struct SCase20 {
+    pub binary: bool,
+    pub allow_first_only: bool,
+    pub prefix: Case,
+    pub reqs: Vec<RawReq>,
+}
+
+fn scase20(max_reqs: usize) -> BoxedStrategy<SCase20> {
+    (any::<bool>(), prop::bool::weighted(0.4), rcase(6, max_reqs)).prop_map(|(binary, allow_first_only, rc)| SCase20 { binary, allow_first_only, prefix: rc.prefix, reqs: rc.reqs }).boxed()
+}
+
+fn check_sock_c20(sc: &SCase20, st: &mut Stats) -> CheckResult {
+    use crate::sock::{exchange, Encoding, SockError, SockServer};
+    let clients: Vec<Uuid> = (0..sc.prefix.nclients).map(|i| case::client_uuid(sc.prefix.salt, i)).collect();
+    let allow: Option<HashSet<Uuid>> = if sc.allow_first_only { Some([clients[0]].into_iter().collect()) } else { None };
+    let dir = TempDir::new("c20s");
+    // keep the server alive for the whole case
+    let mut _srv: Option<SockServer> = None;
+    let mut _proc: Option<crate::props::binary::Proc> = None;
+    let addr = if sc.binary {
+        let Some(bin) = crate::props::binary::server_bin() else { return Err(Fail::Inconclusive("the server executable has not been built".into())) };
+        let mut args = vec!["--data-dir".to_string(), dir.path().to_string_lossy().into_owned()];
+        if let Some(a) = &allow {
+            for id in a {
+                args.push("-C".into());
+                args.push(id.to_string());
+            }
+        }
+        let mut started = None;
+        for _ in 0..4 {
+            let l = std::net::TcpListener::bind("127.0.0.1:0").map_err(|e| Fail::Inconclusive(format!("no loopback port: {e}")))?;
+            let port = l.local_addr().unwrap().port();
+            drop(l);
+            let mut a = args.clone();
+            a.push("--listen".into());
+            a.push(format!("127.0.0.1:{port}"));
+            let launch = crate::props::binary::Launch { args: a, env: vec![], connect: vec![format!("127.0.0.1:{port}").parse().unwrap()] };
+            if let Ok(p) = crate::props::binary::spawn(&bin, &launch) {
+                started = Some(p);
+                break;
+            }
+        }
+        let Some(p) = started else { return Err(Fail::Inconclusive("cannot start the server executable".into())) };
+        let a = p.addrs[0];
+        _proc = Some(p);
+        a
+    } else {
+        let storage = sqlite_factory(dir.path().to_path_buf())().map_err(|e| Fail::Violation(format!("opening storage: {e:#}")))?.served;
+        let ws = taskchampion_sync_server::WebServer::new(crate::driver::server_config(&sc.prefix.cfg), allow.clone(), crate::driver::ArcStorage(storage));
+        let s = SockServer::start(ws).map_err(|e| Fail::Inconclusive(format!("cannot start a socket server: {e:#}")))?;
+        let a = s.addr;
+        _srv = Some(s);
+        a
+    };
+    // a little state first (through the same socket), then the grammar
+    let mut latest: Vec<Uuid> = vec![Uuid::nil(); clients.len()];
+    let mut all: Vec<(HttpReq, bool)> = vec![];
+    for (i, c) in clients.iter().enumerate() {
+        all.push((crate::driver::req_add_version(*c, Uuid::nil(), vec![Bytes::from_static(b"seed")]), true));
+        let _ = i;
+    }
+    for r in &sc.reqs {
+        let ci = r.client as usize % clients.len();
+        let id = match &r.idref {
+            IdRef::Latest(k) => latest[*k as usize % latest.len()],
+            IdRef::Fresh(l) => case::fresh_uuid(*l),
+            _ => Uuid::nil(),
+        };
+        let b = build(r, clients[ci], clients[(ci + 1) % clients.len()], id);
+        all.push((b.req, false));
+    }
+    for (k, (req, setup)) in all.iter().enumerate() {
+        let resp = match exchange(addr, req, if k % 2 == 0 { Encoding::ContentLength } else { Encoding::Chunked }, &[], std::time::Duration::from_secs(20)) {
+            Ok(r) => r,
+            Err(SockError::NoResponse(m)) | Err(SockError::Io(m)) => {
+                st.label("c20:socket:no-response");
+                let _ = m;
+                continue;
+            }
+        };
+        if *setup && resp.status == 200 {
+            if let Some(vv) = resp.header_str("X-Version-Id").and_then(|s| Uuid::parse_str(&s).ok()) {
+                latest[k] = vv;
+            }
+        }
+        c20_check(if sc.binary { "over TCP to the real executable" } else { "over TCP to an actix HttpServer" }, req, &resp, st)?;
+    }
+    // server errors are outcomes too: break the storage under the running server (drop the tables
+    // through a second connection) and ask every endpoint once more
+    {
+        let con = rusqlite::Connection::open(dir.path().join("taskchampion-sync-server.sqlite3")).map_err(|e| Fail::Inconclusive(format!("second connection: {e}")))?;
+        let _ = con.busy_timeout(std::time::Duration::from_secs(10));
+        let _ = con.execute_batch("DROP TABLE IF EXISTS versions; DROP TABLE IF EXISTS clients;");
+    }
+    let c = clients[0];
+    let broken = [
+        crate::driver::req_add_version(c, latest[0], vec![Bytes::from_static(b"after")]),
+        crate::driver::req_get_child(c, Uuid::nil()),
+        crate::driver::req_add_snapshot(c, latest[0], vec![Bytes::from_static(b"snap")]),
+        crate::driver::req_get_snapshot(c),
+    ];
+    for req in &broken {
+        if let Ok(resp) = exchange(addr, req, Encoding::ContentLength, &[], std::time::Duration::from_secs(20)) {
+            if resp.status >= 500 {
+                st.label("c20:socket:server-error-response");
+            }
+            c20_check(if sc.binary { "storage broken under the real executable" } else { "storage broken under an actix HttpServer" }, req, &resp, st)?;
+        }
+    }
+    st.label(if sc.binary { "c20:binary-case" } else { "c20:socket-case" });
+    Ok(())
+}
+
+/// C20 for failing storage, in process: every storage call of every endpoint's request is made to
+/// fail in turn; the 500 (or whatever the server answers) must forbid caching as well.
+#[derive(Clone, Debug, Serialize, Deserialize, PartialEq, Eq, Hash)]
+pub struct FCase20 {
+    pub backend: Backend,
+    pub endpoint: u8,
+    pub at: u32,
+    pub after_effect: bool,
+}
+
+fn check_fault_c20(fc: &FCase20, st: &mut Stats) -> CheckResult {
+    let shared = Arc::new(Mutex::new(wrap::Shared::default()));
+    let (base, dir) = match fc.backend {
+        Backend::Mem => (mem_factory(), None),
+        Backend::Sqlite => {
+            let d = TempDir::new("c20f");
+            (sqlite_factory(d.path().to_path_buf()), Some(d))
+        }
+    };
+    let cfg = case::Cfg::default();
+    let mut drv = Driver::with_factory(fc.backend, Via::Http, &cfg, None, wrap::instrumented_factory(base, shared.clone()), dir).map_err(|e| Fail::Violation(format!("opening storage: {e:#}")))?;
+    let c = case::client_uuid(20, 0);
+    let v1 = match drv.add_version(c, Uuid::nil(), b"one") {
+        Outcome::Accepted { id, .. } => id,
+        o => return v(format!("set-up: {}", o.short())),
+    };
+    let _ = drv.add_snapshot(c, v1, b"snap");
+    // an unknown client for the create path
+    let c2 = case::client_uuid(20, 1);
+    let req = match fc.endpoint % 5 {
+        0 => crate::driver::req_add_version(c, v1, vec![Bytes::from_static(b"two")]),
+        1 => crate::driver::req_get_child(c, Uuid::nil()),
+        2 => crate::driver::req_add_snapshot(c, v1, vec![Bytes::from_static(b"snap2")]),
+        3 => crate::driver::req_get_snapshot(c),
+        _ => crate::driver::req_add_version(c2, Uuid::nil(), vec![Bytes::from_static(b"first")]),
+    };
+    // the in-memory backend panics when a written transaction is dropped uncommitted; faults
+    // after a write are therefore injected on SQLite only
+    wrap::arm(&shared, vec![wrap::Fault { at: fc.at, after_effect: fc.after_effect && fc.backend == Backend::Sqlite }]);
+    let resp = drv.http_call(req.clone());
+    let injected = wrap::disarm(&shared);
+    if resp.crashed.is_some() {
+        st.label("c20:fault:handler-crashed(no response)");
+        return Ok(());
+    }
+    c20_check(&format!("storage call {:?} failing", injected.first().map(|i| i.1)), &req, &resp, st)?;
+    if resp.status >= 500 {
+        st.label("c20:fault:server-error-response");
+        st.nontrivial(&("c20-fault", fc.endpoint % 5, injected.first().map(|i| i.1), resp.status));
+    }
+    Ok(())
+}
+
+fn fault_cases20() -> Vec<FCase20> {
+    let mut out = vec![];
+    for backend in [Backend::Sqlite, Backend::Mem] {
+        for endpoint in 0..5u8 {
+            for at in 0..10u32 {
+                for after_effect in [false, true] {
+                    if backend == Backend::Mem && after_effect {
+                        continue;
+                    }
+                    out.push(FCase20 { backend, endpoint, at, after_effect });
+                }
+            }
+        }
+    }
+    out
 }
 
 /// C20 over the allow-list exploration: every response (403s included) must forbid caching.
@@ -1214,9 +1497,12 @@ pub fn replay(id: &str, kind: &str, case_json: &Value, st: &mut Stats) -> CheckR
         ("C14", "twin") => check_twin(&serde_json::from_value(case_json.clone()).map_err(bad)?, st),
         ("C15", "raw") => check_raw(&serde_json::from_value(case_json.clone()).map_err(bad)?, Mode::C15, st),
         ("C20", "raw") => check_raw(&serde_json::from_value(case_json.clone()).map_err(bad)?, Mode::C20, st),
+        ("C15", "limit-binary") => check_limit_binary(&serde_json::from_value(case_json.clone()).map_err(bad)?, st),
         ("C15", "limit") => check_limit(&serde_json::from_value(case_json.clone()).map_err(bad)?, false, st),
         ("C20", "limit") => check_limit(&serde_json::from_value(case_json.clone()).map_err(bad)?, true, st),
         ("C20", "allow") => check_allow_c20(&serde_json::from_value(case_json.clone()).map_err(bad)?, st),
+        ("C20", "fault") => check_fault_c20(&serde_json::from_value(case_json.clone()).map_err(bad)?, st),
+        ("C20", "socket") => check_sock_c20(&serde_json::from_value(case_json.clone()).map_err(bad)?, st),
         ("C16", "allow") => check_allow(&serde_json::from_value(case_json.clone()).map_err(bad)?, st),
         _ => Err(Fail::Inconclusive(format!("unknown replay kind {id}/{kind}"))),
     }
